@@ -202,6 +202,6 @@ func newSimDeps(reg *driver.RegistryDefault, l *l1) *simDeps {
 }
 
 func (d *simDeps) RelationTupleManager() relationtuple.Manager { return d.mgr }
-func (d *simDeps) Traverser() relationtuple.Traverser         { return d.trav }
-func (d *simDeps) PermissionEngine() *check.Engine            { return d.ce }
-func (d *simDeps) ExpandEngine() *expand.Engine               { return d.ee }
+func (d *simDeps) Traverser() relationtuple.Traverser          { return d.trav }
+func (d *simDeps) PermissionEngine() *check.Engine             { return d.ce }
+func (d *simDeps) ExpandEngine() *expand.Engine                { return d.ee }
